@@ -18,24 +18,68 @@ PARAMS = dict(criterion="mselin", splitter="best", max_depth=None, min_samples_s
               max_features=None, random_state=None, max_leaf_nodes=None, min_impurity_decrease=0)
 
 
-@contract(F + "::PiecewiseTreeRegressor.predict_leaves", "C09", assumed=True)
+lposF = z3.Function("leaf_position_of_row", models.Est, models.Row, z3.IntSort())     # ghost: position in leaves_index_ of the leaf of a row
+
+
+def _leaves_wf(E, s):
+    """object invariant after _fit_reglin (stated as a precondition): leaves_index_ lists nodes of the tree and every row's decision
+    path contains exactly one of them (scikit-learn trees: a row ends in exactly one leaf, all leaves are listed - ASSUMED)"""
+    st = s.fields["tree_"].term
+    leaves = s.fields["leaves_index_"]
+    R = E.registry
+    row = z3.Const("rho!lw", models.Row)
+    t = z3.Int("t!lw")
+    L = z(leaves.length)
+    return {"one_row_of_coefficients_per_listed_leaf": z3.And(L >= 1, z(s.fields["betas_"].shape[0]) == L),
+            "listed_leaves_are_nodes_and_each_row_ends_in_exactly_one": z3.ForAll([row, t], z3.And(
+                lposF(st, row) >= 0, lposF(st, row) < L,
+                z3.Implies(z3.And(t >= 0, t < L), z3.And(leaves.get(t) >= 0, leaves.get(t) < R.nodesF(st),
+                                                         z3.Or(R.pathF(st, row, leaves.get(t)) == 0, R.pathF(st, row, leaves.get(t)) == 1),
+                                                         (R.pathF(st, row, leaves.get(t)) == 1) == (t == lposF(st, row))))))}
+
+
+@contract(F + "::PiecewiseTreeRegressor.predict_leaves", "C09")
 class PredictLeaves(Contract):
-    """ASSUMED (sparse decision_path plumbing; see C12 for predict_leaves of tree_structure): position of the row's leaf in leaves_index_"""
+    """PROVED (sparse decision_path, column selection, argmax): the position in leaves_index_ of the leaf each row falls into"""
+
+    def setup(self, E, v):
+        from pyvc.values import SList
+        s = _fitted(E)
+        return dict(self=s, X=E.nd("X", (E.size("n", 0), s.fields["$d"])))
+
+    def requires(self, E, a):
+        return _leaves_wf(E, a.self)
+
+    def old(self, E, a):
+        return dict(X=a.X.snapshot())
 
     def result(self, E, a, old):
-        n = a.X.shape[0]
-        L = a.self.fields["betas_"].shape[0]
-        out = NdArr.fresh("leaves", (n,), "int")
-        i = z3.Int(models.fresh_name("i"))
-        E.assume(z3.ForAll([i], z3.Implies(z3.And(i >= 0, i < z(n)), z3.And(out.cell.term[i] >= 0, out.cell.term[i] < z(L)))))
+        out = NdArr.fresh("leaves", (a.X.shape[0],), "int")
         E.ps["c09_leaves"] = out
         return out
+
+    def ensures(self, E, a, res, old, shifted=False):
+        ok = isinstance(res, NdArr) and res.ndim == 1
+        out = {"one_position_per_row": z3.BoolVal(ok) if not ok else z(res.shape[0]) == z(a.X.shape[0])}
+        if ok:
+            st = a.self.fields["tree_"].term
+            L = z(a.self.fields["leaves_index_"].length)
+            out["position_of_the_rows_own_leaf"] = E.forall_range([(0, z(a.X.shape[0]))], lambda r: z3.And(
+                res.get(r) >= 0, res.get(r) < L, res.get(r) == lposF(st, models.row_of(E, old["X"], r)) + (1 if shifted else 0)))
+        return out
+
+    canaries = {"position_of_the_next_leaf": lambda E, a, res, old: PredictLeaves().ensures(E, a, res, old, shifted=True).get(
+        "position_of_the_rows_own_leaf", z3.BoolVal(True))}
 
 
 def _fitted(E, crit="mselin"):
     s = E.new_obj(F + "::PiecewiseTreeRegressor", dict(PARAMS, criterion=crit))
     d = E.size("d", 1)
-    s.fields["betas_"] = E.nd("betas", (E.size("n_leaves", 1), z3.simplify(z(d) + 1)))
+    from pyvc.values import SList
+    leaves = SList.fresh("leaves_index", z3.IntSort())
+    E.assume(leaves.length >= 1)
+    s.fields["leaves_index_"] = leaves
+    s.fields["betas_"] = E.nd("betas", (leaves.length, z3.simplify(z(d) + 1)))
     s.fields["tree_"] = Opaque(z3.Const("tree", models.Est), "tree")
     s.fields["$d"] = d
     return s
@@ -46,6 +90,9 @@ class PredictReglin(Contract):
     def setup(self, E, v):
         s = _fitted(E)
         return dict(self=s, X=E.nd("X", (E.size("n", 0), s.fields["$d"])), check_input=True)
+
+    def requires(self, E, a):
+        return _leaves_wf(E, a.self)
 
     def old(self, E, a):
         return dict(tl=len(E.trace), X=a.X.snapshot(), w=a.X.cell.writes)
@@ -99,6 +146,9 @@ class Predict(Contract):
         s = _fitted(E, crit)
         return dict(self=s, X=E.nd("X", (E.size("n", 0), s.fields["$d"])), check_input=True, _crit=crit)
 
+    def requires(self, E, a):
+        return _leaves_wf(E, a.self) if a._crit == "mselin" else {}
+
     def old(self, E, a):
         return dict(tl=len(E.trace))
 
@@ -136,7 +186,9 @@ contract(_c02.PiecewiseTreeFit.key, "C09")(Fit)
 
 META = dict(
     level="proof", assumptions=["A1", "A2", "A6", "A7", "A9"], lean_files=["lemmas/Counting.lean"],
-    trusted=["predict_leaves and _fit_reglin are ASSUMED on the Python side (sparse decision_path; LinearRegressorCriterion.create / node_beta are compiled code)",
+    trusted=["_fit_reglin is ASSUMED on the Python side (LinearRegressorCriterion.create / node_beta are compiled LAPACK code); predict_leaves is PROVED "
+             "against the object invariant _fit_reglin leaves behind (leaves_index_ lists nodes of the tree, every row's decision path contains exactly "
+             "one of them - scikit-learn trees, assumed) and the sparse-matrix / argmax models of pyvc/sparsemodel.py",
              "numpy.dot of two vectors is a function of their entries (ghost dot1); DecisionTreeRegressor.fit/predict are scikit-learn's",
              "the compiled criteria 'simple' (SimpleRegressorCriterion, SimpleRegressorCriterionFast) and their common base are verified on the "
              "Python-subset text EXTRACTED MECHANICALLY from the .pyx files on every run (pyvc/pyxstrip.py: cimports, C types of signatures and "
